@@ -35,6 +35,8 @@ mod c14;
 mod c14_more;
 mod c17;
 mod c17_more;
+mod c18;
+mod c18_more;
 
 #[global_allocator]
 static GLOBAL: e4::Guard = e4::Guard;
@@ -101,6 +103,7 @@ fn main() {
         "C17" => c17::run(&Ctx::new("C17", tier).reduced().with_filter(c17::filter())),
         "C08" => c08::run(&Ctx::new("C08", tier)),
         "C09" => c09::run(&Ctx::new("C09", tier)),
+        "C18" => c18::run(&Ctx::new("C18", tier).reduced().with_filter(|k| k.contains(".size") || k.starts_with("panic|") || k.starts_with("fi.capacity"))),
         "C06" => c06::run(&Ctx::new("C06", tier).with_filter(|k| !k.contains("cpc.bounds"))),
         "C05" => c05::run(&Ctx::new("C05", tier).with_filter(|k| !k.starts_with("cpc.bounds"))),
         "C04" => c04::run(&Ctx::new("C04", tier).with_filter(|k| !k.starts_with("theta.bounds"))),
